@@ -165,13 +165,22 @@ def concretise(opts, text, rng):
     return list(opts)
 
 
-def realise(opts):
-    """'CFG:{...}' placeholders -> parameter files of this process."""
+def realise(opts, reuse=None):
+    """'CFG:{...}' placeholders -> parameter files of this process. reuse='abs' rewrites one file
+    of this process every time (a parameter scan), reuse='rel' writes 'scan.cfg' into the current
+    directory and passes the bare name."""
     from .. import util
     out = []
     for o in opts:
         if isinstance(o, str) and o.startswith("CFG:"):
-            out.append(util.write_cfg(json.loads(o[4:])))
+            if reuse == "abs":
+                out.append(util.write_cfg(json.loads(o[4:]), name="scan.cfg"))
+            elif reuse == "rel":
+                path = util.write_cfg(json.loads(o[4:]), name="scan-rel.cfg")
+                os.replace(path, os.path.join(os.getcwd(), "scan.cfg"))
+                out.append("scan.cfg")
+            else:
+                out.append(util.write_cfg(json.loads(o[4:])))
         else:
             out.append(o)
     return out
@@ -292,7 +301,12 @@ def run_history(case, rng, viol, counts, classes):
     seen_at = {}
     coupled = False
     home = os.getcwd()
-    desc = {"kind": "history", "inputs": [d for _, d in inputs], "calls": []}
+    # parameter files: one per content, or one path rewritten between the calls, or one bare name
+    # that resolves in whatever the working directory is
+    reuse = rng.choice((None, None, "abs", "rel"))
+    if reuse:
+        classes.append("parameter-file-" + reuse)
+    desc = {"kind": "history", "inputs": [d for _, d in inputs], "calls": [], "cfg_reuse": reuse}
     try:
         for n, (i, o) in enumerate(calls):
             text = inputs[i][0]
@@ -316,7 +330,7 @@ def run_history(case, rng, viol, counts, classes):
                     fh.write("ATOM      1  N   LYS A   1       0.000   0.000   0.000  1.00  0.00\n")
             os.chdir(wd)
             junk(rng)
-            ropts = realise(o)
+            ropts = realise(o, reuse)
             if mode == "main":
                 got = run_main(text, ropts, rng, inputs, wd)
             elif mode == "zip":
